@@ -651,4 +651,4 @@ func H_C02_names_punct() { vfNamesRT(nondetRange(fFasta, fStockholm), 2, false) 
 // outside: scratch
 func H_C02_dbg() { vfFasta(1, []int{vfDbgL}, false, 1) }
 
-var vfDbgL = 4
+var vfDbgL = 40
